@@ -75,3 +75,16 @@ pub fn guarded<T>(tag: &str, f: impl FnOnce() -> T) -> Result<T, Fail> {
         }
     }
 }
+
+/// Set once an unlisted violation has been reported (the watchdog then exits 1, not 2).
+pub static VIOLATION_SEEN: std::sync::atomic::AtomicBool = std::sync::atomic::AtomicBool::new(false);
+
+/// After a violation the remaining (more expensive) stages are skipped: a broken hook or
+/// scheduler can make an exhaustive simulation endless.
+pub fn violated(ctx: &vcommon::Ctx) -> bool {
+    let v = ctx.violations() > 0;
+    if v {
+        VIOLATION_SEEN.store(true, std::sync::atomic::Ordering::SeqCst);
+    }
+    v
+}
